@@ -15,7 +15,6 @@ import (
 
 func (e *Engine) extraDecls(body string) []string { return nil }
 
-func (e *Engine) taintOf(st *State, v Value) *Term { return TFalse }
 
 type RunConfig struct {
 	Repo, Spec, Work string
@@ -59,6 +58,13 @@ func hasPropClause(c *Contract, prop string) bool {
 	for _, l := range c.Loops {
 		if chk(l) {
 			return true
+		}
+	}
+	for _, td := range c.Taints {
+		for _, t := range td.Tags {
+			if t == prop {
+				return true
+			}
 		}
 	}
 	return false
@@ -139,6 +145,7 @@ func run(cfg RunConfig) (*Engine, *RunResult, error) {
 	rr.Paths = e.pathCount
 	t2 := time.Now()
 	s := newSolver(cfg.Work, cfg.Timeout)
+	s.retry = true
 	s.keep = cfg.Keep
 	rr.Solver = s
 	rr.Results = e.dischargeAll(s, e.obls, cfg.Workers)
